@@ -254,12 +254,18 @@ class SSeq(SV):
 
     def concat(self, other):
         a, b = self, other
+        if isinstance(b.length, int) and b.length == 0:
+            return a
+        if isinstance(a.length, int) and a.length == 0:
+            return b
         la = a.len_z()
 
         def fn(i):
             return ite_value(i < la, lambda: a.at(i), lambda: b.at(i - la))
 
-        return SSeq(wrap(z3.simplify(la + b.len_z())), fn, f"({a.desc}+{b.desc})")
+        r = SSeq(wrap(z3.simplify(la + b.len_z())), fn, f"({a.desc}+{b.desc})")
+        r.parts = list(getattr(a, "parts", [a])) + list(getattr(b, "parts", [b]))  # segments, for contracts that reason per segment
+        return r
 
     def slice(self, lo, hi):
         """self[lo:hi] with 0 <= lo <= hi <= len assumed by the caller's obligations."""
